@@ -39,6 +39,20 @@ def scenarios(ctx):
                     cfg = {"tick_ms": tick, "fallback": F, "recovery": R, "check": 1, "ast": B.NETERR, "expr": B.render(B.NETERR)}
                     out.append({"id": "window-%d" % i, "cfg": cfg, "steps": steps})
                     i += 1
+    # configurations at the edge of what can be expressed: a fallback that never ends by itself (math.MaxInt64 ns; the trace
+    # carries it as 10^9 ticks), arrivals hours and days after the trip
+    for j in range(4 if quick else 20):
+        tick = rng.choice([1000, 100])
+        steps = [{"op": "start", "r": 1}, {"op": "adv", "d": rng.randint(0, 3)}, {"op": "finish", "r": 1, "code": 502}]
+        rid = 10
+        for d in [1, 1, 5, 60, 3600, 86400, 86400 * 30]:
+            steps.append({"op": "adv", "d": d})
+            for _ in range(rng.randint(1, 4)):
+                rid += 1
+                steps += [{"op": "start", "r": rid}, {"op": "finish", "r": rid, "code": 200}]
+        cfg = {"tick_ms": tick, "fallback": 1000000000, "fallback_forever": True, "recovery": rng.randint(1, 10), "check": 1,
+               "ast": B.NETERR, "expr": B.render(B.NETERR)}
+        out.append({"id": "forever-%d" % j, "cfg": cfg, "steps": steps})
     return out
 
 
